@@ -94,6 +94,8 @@ impl StatementBatch {
                 let on = TimeoutLimit::parse(&t.on)?;
                 if millis >= on.as_secs() * 1000 {
                     task.set_data_with(|data| data.set(&key, true));
+                    // the mark is what keeps the rule from firing again, save it with the task
+                    ctx.runtime.cache().upsert(&task)?;
                     for node in &task
                         .node()
                         .children_in(NodeOutputKind::Timeout, Some(t.on.clone()))
